@@ -260,4 +260,155 @@ theorem new_accepts_iff (m : Mode) (lineBase : Int) (lineRange : Nat)
 /-- **Finding C13-1, pinned**: gcc's line_base/line_range are refused in both build modes -/
 theorem new_rejects_gcc_encoding (m : Mode) : (newCheck m (-10) 242).isOk = false := by
   cases m <;> decide
+/-! ## file identity -/
+
+/-- **File ids are stable and identify the key.** For every program state and every
+`add_file(name, directory, info)` that returns (does not hit its `assert!`s) with id `i`:
+1. entry `i` of the table has exactly that `(name, directory)` key, and the given info if one
+   was given;
+2. every entry that existed before keeps its index and its key (only the info of entry `i` may
+   have been replaced) — ids handed out earlier stay valid;
+3. adding the same key again — with any info — returns the **same id** and does not grow the
+   table: duplicate names map to one id. -/
+theorem file_ids_stable (p p1 : Prog) (name : LineStr) (dir : Nat) (info : Option FileInfo) (i : Nat)
+    (h : addFile p name dir info = .ok (p1, i)) :
+    (∃ f, p1.files[i]? = some f ∧ f.name = name ∧ f.dir = dir ∧ ∀ x, info = some x → f.info = x) ∧
+    (∀ j f, p.files[j]? = some f →
+      ∃ f', p1.files[j]? = some f' ∧ f'.name = f.name ∧ f'.dir = f.dir ∧ (j ≠ i → f' = f)) ∧
+    (∀ info', ∃ p2, addFile p1 name dir info' = .ok (p2, i) ∧ p2.files.length = p1.files.length) := by
+  have hfind := addFile_find p name dir info p1 i h
+  refine ⟨?_, fun j f hj => addFile_preserves p name dir info p1 i h j f hj, ?_⟩
+  · obtain ⟨f, hf, hk, _⟩ := findIdx?_some _ _ _ hfind
+    rw [fkey_iff] at hk
+    refine ⟨f, hf, hk.1, hk.2, ?_⟩
+    intro x hx
+    subst hx
+    rcases addFile_unfold p name dir (some x) p1 i h with ⟨_, hp⟩ | ⟨_, hi, hp⟩
+    · subst hp
+      simp only [updInfo, setInfo_get] at hf
+      cases hq : p.files[i]? with
+      | none => simp [hq] at hf
+      | some g => simp [hq] at hf; rw [← hf]
+    · subst hp hi
+      simp at hf
+      rw [← hf]
+  · intro info'
+    -- the asserts passed for this name once, they pass again
+    have hassert : ¬ (name.form = .string ∧ p.enc.version ≤ 4 ∧ name.val.isEmpty) ∧
+        ¬ (name.form = .string ∧ name.val.contains 0) := by
+      unfold addFile at h
+      split at h
+      · cases h
+      · split at h
+        · cases h
+        · constructor <;> assumption
+    have henc : p1.enc = p.enc := by
+      rcases addFile_unfold p name dir info p1 i h with ⟨_, hp⟩ | ⟨_, _, hp⟩ <;> subst hp <;> rfl
+    unfold addFile
+    rw [henc, if_neg hassert.1, if_neg hassert.2]
+    have hk : (fun f : FileEnt => f.name == name && f.dir == dir) = fkey name dir := rfl
+    rw [hk, hfind]
+    cases info' with
+    | some x => exact ⟨_, rfl, by simp [setInfo_length]⟩
+    | none => exact ⟨_, rfl, rfl⟩
+
+/-- **Different keys get different ids**: two successive `add_file` calls with different
+`(name, directory)` keys never return the same id. -/
+theorem file_ids_injective (p p1 p2 : Prog) (n1 n2 : LineStr) (d1 d2 : Nat) (i1 i2 : Option FileInfo)
+    (i j : Nat) (h1 : addFile p n1 d1 i1 = .ok (p1, i)) (h2 : addFile p1 n2 d2 i2 = .ok (p2, j))
+    (hne : ¬ (n1 = n2 ∧ d1 = d2)) : i ≠ j := by
+  intro hij
+  subst hij
+  obtain ⟨⟨f, hf, hn, hd, _⟩, _, _⟩ := file_ids_stable p p1 n1 d1 i1 i h1
+  obtain ⟨⟨g, hg, hn', hd', _⟩, hpres, _⟩ := file_ids_stable p1 p2 n2 d2 i2 i h2
+  obtain ⟨f', hf', hfn, hfd, _⟩ := hpres i f hf
+  rw [hg] at hf'
+  cases hf'
+  exact hne ⟨by rw [← hn, ← hfn, hn'], by rw [← hd, ← hfd, hd']⟩
+
+/-- **Index base by version**: the raw file number written for id `i` (`FileId::raw`) is `i + 1`
+for versions ≤ 4 and `i` for version 5, and that is exactly the number under which the reader's
+`LineProgramHeader::file` (C04's `Header.file`) finds entry `i` of the file table — for every
+header of version 2–5 (for versions ≤ 4 the raw number is never 0, so it never aliases the
+compilation unit's own name). -/
+theorem file_index_base (hd : Header) (i : Nat) :
+    fileRaw hd.p.version i = (if hd.p.version ≤ 4 then i + 1 else i) ∧
+    hd.file (fileRaw hd.p.version i) = hd.files[i]? := by
+  constructor
+  · rfl
+  · unfold Header.file fileRaw
+    by_cases hv : hd.p.version ≤ 4
+    · simp [hv]
+    · simp [hv]
+
+/-- the initial `file` register: `FileId::initial_state` made raw is the DWARF default 1 for
+every version 2–5 -/
+theorem file_initial_raw (version : Nat) (hv : version ≤ 5) : fileRaw version (fileInitial version) = 1 := by
+  unfold fileRaw fileInitial
+  by_cases h5 : version = 5
+  · subst h5; simp
+  · have : version ≤ 4 := by omega
+    simp [h5, this]
+
+/-- a small encoding for the examples: version 4, line_base −5, line_range 14 -/
+def enc4 : Enc :=
+  { version := 4, minInstLen := 1, maxOps := 1, defaultIsStmt := true, lineBase := -5, lineRange := 14 }
+
+def prog0 : Prog :=
+  { format := .dwarf32, addrSize := 8, enc := enc4, dirs := [], files := [], hasTimestamp := false,
+    hasSize := false, hasMd5 := false, hasSource := false, prevRow := WRow.initial enc4,
+    row := WRow.initial enc4, instrs := [], inSequence := false }
+
+/-- non-vacuity: "a" twice (the second time with an info) is one entry, "b" is another -/
+example :
+    (do let (p, i) ← addFile prog0 ⟨.string, [0x61]⟩ 0 none
+        let (p, j) ← addFile p ⟨.string, [0x61]⟩ 0 (some FileInfo.default)
+        let (p, k) ← addFile p ⟨.string, [0x62]⟩ 0 none
+        pure (i, j, k, p.files.length) : Out (Nat × Nat × Nat × Nat)) = .ok (0, 0, 1, 2) := by
+  decide
+
+/-! ## instruction bytes -/
+
+/-- **Every emitted instruction decodes back** — partial. For every header a reader parses from
+the writer's output (`opcode_base = 13`, address size 1/2/4/8, any version, either byte order),
+every instruction the writer can hold whose operands fit its own field types
+(`WInstr.Encodable`), and any following bytes `rest`: C04's `LineInstruction::parse` Model on the
+bytes `LineInstruction::write` emits returns exactly that instruction (file ids made raw) and
+`rest` — incl. the extended-opcode length prefixes of `end_sequence`, `set_address`,
+`set_discriminator`.
+
+Missing for the full statement: for `AdvanceLine(v)` the round trip of the *signed* LEB128 codec
+(`Leb.signed (Leb.encodeS v ++ rest) = ok (v, rest)`) is a hypothesis (`hsig`), because C09 has
+not proved it yet (it is covered there by exhaustive short-string enumeration and the
+differential run; see the `example`s below for concrete values). Every other instruction is
+unconditional. -/
+theorem instr_bytes_roundtrip_partial (h : Params) (hh : WriterHeader h) (i : WInstr)
+    (henc : i.Encodable h.version)
+    (hsig : ∀ v rest, i = .advanceLine v → Leb.signed (Leb.encodeS v ++ rest) = .ok (v, rest))
+    (bs : Bytes) (hw : writeInstr h.endian h.version h.addrSize i = .ok bs) (rest : Bytes) :
+    parseInstr h (bs ++ rest) = .ok (i.toInstr h.version, rest) :=
+  instr_bytes_roundtrip_aux h hh i henc hsig bs hw rest
+
+/-- the same for a whole program: running the reader on the written bytes is running it on the
+instruction list (so `generate_row_correct` and `sequence_roundtrip` speak about the bytes) -/
+theorem program_bytes_roundtrip_partial (h : Params) (hh : WriterHeader h) (is : List WInstr)
+    (henc : ∀ i ∈ is, i.Encodable h.version)
+    (hsig : ∀ v rest, WInstr.advanceLine v ∈ is → Leb.signed (Leb.encodeS v ++ rest) = .ok (v, rest))
+    (bs : Bytes) (hw : writeInstrs h.endian h.version h.addrSize is = .ok bs) :
+    decodeAll h (bs.length + 1) bs = .ok (is.map (WInstr.toInstr h.version)) ∧
+    trace h bs = traceInstrs h (Row.new h) (is.map (WInstr.toInstr h.version)) := by
+  have hd := writeInstrs_decodeAll h hh is henc hsig bs hw (bs.length + 1) (by omega)
+  refine ⟨hd, ?_⟩
+  unfold trace
+  rw [traceLoop_decodeAll h _ _ _ _ hd, reset_new]
+
+/-- the signed LEB128 hypothesis holds at the boundaries of every encoded length class that fits
+a few bytes, for any tail -/
+example : ∀ v ∈ [(0 : Int), 1, -1, 63, 64, -64, -65, 300, -300, 8191, 8192, -8192, -8193,
+    2 ^ 62, -(2 ^ 62), 2 ^ 63 - 1, -(2 ^ 63)],
+    Leb.signed (Leb.encodeS v ++ [0xaa, 0x01]) = .ok (v, [0xaa, 0x01]) := by decide
+
+example : writeInstr .little 4 8 (.setAddress (some 0x1000)) = .ok [0, 9, 2, 0, 0x10, 0, 0, 0, 0, 0, 0] := by
+  decide
+example : writeInstr .little 4 8 (.setDiscriminator 300) = .ok [0, 3, 4, 0xac, 0x02] := by decide
 end Gimli.Props.C13
